@@ -109,6 +109,9 @@ func RunSignalScript(kind string, progs []string) (*SignalResult, error) {
 		if p == "append" || p == "kill" {
 			res.Expected++
 		}
+		if p == "append" && i%4 == 2 {
+			res.Expected++ // this caller appends a list with two errors around a nil
+		}
 		wg.Add(1)
 		go func(i int, p string) {
 			defer wg.Done()
@@ -121,7 +124,18 @@ func RunSignalScript(kind string, progs []string) (*SignalResult, error) {
 			}()
 			switch p {
 			case "append":
-				t.Ctx.AppendError(fmt.Errorf("e%d", i))
+				// error lists as callers build them from per-worker results: nil entries anywhere are skipped, the rest kept
+				switch i % 4 {
+				case 1:
+					t.Ctx.AppendError(nil, fmt.Errorf("e%d", i))
+				case 2:
+					t.Ctx.AppendError(fmt.Errorf("e%d", i), nil, fmt.Errorf("e%d'", i))
+				case 3:
+					t.Ctx.AppendError(nil, nil)
+					t.Ctx.AppendError(fmt.Errorf("e%d", i), nil)
+				default:
+					t.Ctx.AppendError(fmt.Errorf("e%d", i))
+				}
 			case "kill":
 				t.Ctx.Kill()
 			case "stop":
